@@ -3,3 +3,4 @@ NEXT Next
 CHECK_DEADLOCK FALSE
 INVARIANT ObservedUnderSelected
 INVARIANT ChainValid
+INVARIANT GenesisSound
